@@ -277,6 +277,16 @@ class Net:
                 nn.exc = nn.wnode.exc
         return ok
 
+    def air_digest(self):
+        """digest of the ordered on-air event sequence = which interleaving of the MCUs was seen"""
+        return tuple((p.src.name, p.kind, p.attempt, tuple(o for o in p.outcomes)) for p in self.air.log)
+
+    def radio_states(self):
+        s = set()
+        for nn in self.nodes:
+            s |= {(nn.kind,) + st for st in nn.radio.states}
+        return s
+
     def close(self):
         self.rig.close()
 
